@@ -69,11 +69,29 @@ def run(chk):
                ('..', 'rootx', 'sib'), ('..', 'root-old', 'o'), ('..', 'root.bak', 'k'), ('..', 'rootsecret'), ('..', 'top'), ('..', '..', 'secret'),
                ('..', '..', 'b2', 'root', 'only2'), ('sub', '..', '..', 'top'), ('.', '..', 'rootx', 'sib'), ('', '..', 'top')]
     names = [c for c in curated for _ in range(len(roots))] + names
+    # names that already carry the root's own absolute path (as produced by glob / os.walk) and then climb out of it
+    rabs = os.path.join(b, 'root')
+    verbatim = [rabs + '/../top', rabs + '/sub/../../top', rabs + '/../rootx/sib', rabs + '/../../secret', rabs + '/../rootsecret', rabs + '/./../ROOT/caps',
+                rabs + '/in', rabs + '/sub/deep', rabs + '//../top', rabs + '/../root/in', rabs.lstrip('/') + '/../top', rabs + '/..', rabs + 'x/sib', rabs + 'secret']
+    # roots that are not (or no longer) directories: a missing directory, a plain file, a directory below a plain file
+    odd_roots = [('missing dir', os.path.join(b, 'missing')), ('missing dir/', os.path.join(b, 'nodir') + '/'), ('plain file as root', os.path.join(b, 'top')),
+                 ('below a file', os.path.join(b, 'top', 'x')), ('missing below root', os.path.join(b, 'root', 'gone')), ('rel missing', 'missing')]
+    odd_names = [('top',), ('rootsecret',), ('in',), ('root', 'in'), ('rootx', 'sib'), ('sub', 'deep'), ('..', 'top'), ('deep',), ('b', 'top'), ('',), ('.',)]
+    jobs = []
     for ss in names:
         for sep in (seps if thorough else [rng.choice(seps)]):
             for lead in (leads if thorough and len(ss) < 3 else [rng.choice(leads)]):
-                rname, root = rng.choice(roots) if not thorough else roots[len(recs) % len(roots)]
-                name = lead + sep.join(ss)
+                jobs.append((lead + sep.join(ss), None))
+    for v in verbatim:
+        for rt in roots:
+            jobs.append((v, rt))
+    for ss in odd_names:
+        for rt in odd_roots:
+            jobs.append(('/'.join(ss), rt))
+    for name, fixed_root in jobs:
+        if True:
+            if True:
+                rname, root = fixed_root or (rng.choice(roots) if not thorough else roots[len(recs) % len(roots)])
                 # relative roots are resolved against the CURRENT directory of each call: move between two trees that both have ./root
                 if not os.path.isabs(root):
                     cwd = rng.choice([b, os.path.join(base, 'b2')])
